@@ -9,12 +9,12 @@ from lib import common, fuzz, vbuild
 PROP = 'C02'
 RULE = ('(i) bounded-exhaustive enumeration of all sequences of 39 line-kind representatives (the plain line calls every kind of definition; one composite kind is blank+indented continuation) up to length L (quick L=3, thorough L=4), every ordered pair of kinds repeated 1200 (quick) or 3000 (thorough) times as one long document, and '
         'random sequences of length 5..12, each through 7 writers (html, latex, beamer, memoir, fodt, opml, itmz) x {MMD, compatibility}; '
-        '(ii) coverage-guided fuzzing of arbitrary documents through the same writers/modes (+optional complete/process-html/critic bits). '
+        'The long documents end with a paragraph of nested inline structure whose words must still be rendered (not claimed behind raw HTML / comments); one line kind carries formulas. (ii) coverage-guided fuzzing of arbitrary documents through the same writers/modes (+optional complete/process-html/critic bits). '
         'Oracle per conversion: control returns (exit() intercepted), fd 2 carries no "Unknown token type" / "Parser failed" / "Parser '
         'syntax error", the parse tree is not empty for a non-blank source, a leading plain line still shows in HTML/LaTeX/ODF, and (enumerator) '
         'the distinctive word of every plain line, list item, quote line, ATX heading and indented continuation that nothing can legitimately '
         'swallow (metadata block, uncalled definition, raw HTML block / comment, open fence) appears in the HTML, LaTeX-family and ODF output. '
-        'Non-trivial: (sequence, writer, mode) of length>=2 whose tree has >=2 different top-level block types (counted in the enumerator), '
+        'Fuzz inputs that hit the time limit are re-run alone for 60 s: not returning is a violation (hang@function). Non-trivial: (sequence, writer, mode) of length>=2 whose tree has >=2 different top-level block types (counted in the enumerator), '
         'plus corpus additions of the fuzz leg.')
 
 
